@@ -181,6 +181,9 @@ class Mon:
         ctx.seen((key, spelled, syntax, value_scope))
 
 
+D2_VALUES = ['calc(100% - 20px)', 'a - b', '0 auto!important', 'url(http://a.b/c.png)', '#abcd', 'min(10px, 5vw - 1px)']
+
+
 def user_table(rng, builtin_keys):
     n = rng.randint(1, 8) if rng.random() < 0.9 else rng.randint(12, 40)
     tbl = {}
@@ -220,6 +223,9 @@ def user_table(rng, builtin_keys):
         else:
             v = '@%s {\n\t${0}\n}' % tag
         tbl[k] = v
+    if rng.random() < 0.06:
+        # D2: a first value that the abbreviation value grammar re-reads (a `-` between blanks, `!` inside a value, a colon inside url(), a 4-digit colour): open finding
+        tbl['dtwo'] = 'vp-dtwo:' + rng.choice(D2_VALUES)
     return tbl
 
 
@@ -294,6 +300,9 @@ def run_shard(desc, ctx):
                     ctx.mon('oracle:user-table')
                     kind, exp, prop = expected_line(value, syntax)
                     case = {'kind': 'user', 'table': ut, 'key': key, 'syntax': syntax}
+                    if key == 'dtwo':
+                        case['domain'] = 'd2'
+                        ctx.ev('user-table:d2')
                     # odd tables go through ONE cache dict shared by all tables and scopes of the shard (a cache never changes a result)
                     ck = shared if t % 2 else repr(sorted(ut.items()))
                     case['shared_cache'] = bool(t % 2)
@@ -404,4 +413,15 @@ def _gradient(rec):
     return False
 
 
-CLASSIFIERS = {'C06-gradient-shortcut-bypasses-snippet-table': _gradient}
+def _regrammar(rec):
+    """The value of a snippet is read with the abbreviation's own value grammar, in which `-` and `:` separate values, `!` is the important mark and
+    `#` opens a 1/2/3/6-digit colour: a first value that uses those characters differently (calc arithmetic, `!important` inside, a URL with a scheme, a
+    4-digit colour) is not reproduced.  Explains only the D2 key (whose value is drawn from such values) when the library's output still names the
+    snippet's property - a wrong property, a missing line or an exception there is reported."""
+    c = rec['case']
+    if c.get('domain') != 'd2' or rec['kind'] not in ('user-snippet-unreachable', 'user-snippet-unreachable-under-its-scope'):
+        return False
+    return str(rec['detail'].get('actual', '')).startswith('vp-dtwo')
+
+
+CLASSIFIERS = {'C06-gradient-shortcut-bypasses-snippet-table': _gradient, 'C06-snippet-value-reread-by-the-abbreviation-grammar': _regrammar}
